@@ -11,7 +11,9 @@ import (
 // Facts of the loop's handling of queue errors (C15, lean/QuartzModel/Sched/Faults.lean):
 //   - the `switch` of startExecutionLoop: case conditions in order and the argument of timer.Reset in each;
 //   - calculateNextTick: what it returns when Head() fails / returns ErrQueueEmpty / succeeds;
-//   - `failed = sched.executeAndReschedule(ctx) != nil`, executeAndReschedule returns fetchAndReschedule's error,
+//   - the tick sets the back-off state from executeAndReschedule's error and nothing else assigns it
+//     (`if err := sched.executeAndReschedule(ctx); err != nil { retryAt = time.Now().Add(sched.opts.RetryInterval) }`
+//     on a zero-initialised `var retryAt time.Time`), executeAndReschedule returns fetchAndReschedule's error,
 //     fetchAndReschedule returns the Pop()/Push() error and nil for ErrQueueEmpty, the dispatch is guarded by `valid`;
 //   - every API method returns the error of each queue call it makes.
 // Helpers with the prefix wk are in x_wakeup.go.
@@ -23,7 +25,7 @@ type fqFacts struct {
 	HeadErrReturns      string      `json:"headErrReturns"`
 	HeadEmptyReturns    string      `json:"headEmptyReturns"`
 	HeadPositive        bool        `json:"headPositive"`
-	FailedFromTick      bool        `json:"failedFromTick"`
+	StateFromTick       bool        `json:"stateFromTick"`
 	ExecReturnsFetchErr bool        `json:"execReturnsFetchErr"`
 	PopErrReturned      bool        `json:"popErrReturned"`
 	PopEmptyNil         bool        `json:"popEmptyNil"`
@@ -42,6 +44,9 @@ func fqDur(e ast.Expr) string {
 	}
 	if c, ok := e.(*ast.CallExpr); ok && wkSel(c.Fun, "sched", "calculateNextTick") && len(c.Args) == 0 {
 		return "calculateNextTick"
+	}
+	if c, ok := e.(*ast.CallExpr); ok && wkSel(c.Fun, "time", "Until") && len(c.Args) == 1 && fqIsIdent(c.Args[0], "retryAt") {
+		return "time.Until(retryAt)"
 	}
 	return "?" + wkExpr(e)
 }
@@ -281,7 +286,10 @@ func extractFaults(repo string, fx *Facts) {
 					ff.LoopCases = append(ff.LoopCases, [2]string{cond, arm})
 				}
 			}
-			// failed = sched.executeAndReschedule(ctx) != nil  in the timer case, and nowhere else
+			// the timer case sets the back-off state from the error of executeAndReschedule, and nothing else does:
+			//   if err := sched.executeAndReschedule(ctx); err != nil { retryAt = time.Now().Add(sched.opts.RetryInterval) }
+			// (or, in the earlier form, failed = sched.executeAndReschedule(ctx) != nil)
+			stateVar := ""
 			ast.Inspect(loop, func(n ast.Node) bool {
 				cc, ok := n.(*ast.CommClause)
 				if !ok {
@@ -296,23 +304,53 @@ func extractFaults(repo string, fx *Facts) {
 					return true
 				}
 				for _, b := range cc.Body {
-					as, ok := b.(*ast.AssignStmt)
-					if !ok || as.Tok != token.ASSIGN || len(as.Lhs) != 1 || len(as.Rhs) != 1 || !fqIsIdent(as.Lhs[0], "failed") {
-						continue
-					}
-					be, ok := as.Rhs[0].(*ast.BinaryExpr)
-					if !ok || be.Op != token.NEQ || !fqIsIdent(be.Y, "nil") {
-						continue
-					}
-					if call, ok := wkCall(be.X, "sched", "executeAndReschedule"); ok && call != nil {
-						ff.FailedFromTick = true
-						fx.Where["faults.failedFromTick"] = p.pos(as)
+					switch st := b.(type) {
+					case *ast.IfStmt:
+						init, ok := st.Init.(*ast.AssignStmt)
+						if !ok || st.Else != nil || wkErrCond(st.Cond) != -1 || len(init.Lhs) != 1 || len(init.Rhs) != 1 || !fqIsIdent(init.Lhs[0], "err") || len(st.Body.List) != 1 {
+							continue
+						}
+						if _, ok := wkCall(init.Rhs[0], "sched", "executeAndReschedule"); !ok {
+							continue
+						}
+						as, ok := st.Body.List[0].(*ast.AssignStmt)
+						if !ok || as.Tok != token.ASSIGN || len(as.Lhs) != 1 || len(as.Rhs) != 1 || !fqIsIdent(as.Lhs[0], "retryAt") {
+							continue
+						}
+						if noSpaceFq(wkExpr(as.Rhs[0])) == "time.Now().Add(sched.opts.RetryInterval)" {
+							stateVar = "retryAt"
+							fx.Where["faults.stateFromTick"] = p.pos(as)
+						}
+					case *ast.AssignStmt:
+						if st.Tok != token.ASSIGN || len(st.Lhs) != 1 || len(st.Rhs) != 1 || !fqIsIdent(st.Lhs[0], "failed") {
+							continue
+						}
+						be, ok := st.Rhs[0].(*ast.BinaryExpr)
+						if !ok || be.Op != token.NEQ || !fqIsIdent(be.Y, "nil") {
+							continue
+						}
+						if _, ok := wkCall(be.X, "sched", "executeAndReschedule"); ok {
+							stateVar = "failed"
+							fx.Where["faults.stateFromTick"] = p.pos(st)
+						}
 					}
 				}
 				return true
 			})
-			if ff.FailedFromTick && fqAssignCount(fd.Body, "failed") != 1 {
-				ff.FailedFromTick = false
+			if stateVar != "" && fqAssignCount(fd.Body, stateVar) == 1 {
+				// declared without a value: `var retryAt time.Time` / `var failed bool`
+				for _, st := range fd.Body.List {
+					if ds, ok := st.(*ast.DeclStmt); ok {
+						if gd, ok := ds.Decl.(*ast.GenDecl); ok && gd.Tok == token.VAR {
+							for _, sp := range gd.Specs {
+								vs := sp.(*ast.ValueSpec)
+								if len(vs.Names) == 1 && vs.Names[0].Name == stateVar && len(vs.Values) == 0 {
+									ff.StateFromTick = true
+								}
+							}
+						}
+					}
+				}
 			}
 		}
 	}
@@ -564,7 +602,7 @@ func renderFaults(fx *Facts) string {
 	fmt.Fprintf(&b, "/-- the `switch` of `startExecutionLoop`: (case condition, argument of `timer.Reset`) in source order -/\ndef loopCases : List (String × String) := [%s]\n", strings.Join(cs, ", "))
 	b.WriteString("/-- `calculateNextTick`: result when `Head()` fails / returns `ErrQueueEmpty`; the success path is\n    `if nextRunTime > now { d = nextRunTime - now }` on a zero-initialised `d` -/\n")
 	fmt.Fprintf(&b, "def headErrReturns : String := %s\ndef headEmptyReturns : String := %s\ndef headPositive : Bool := %s\n", leanStr(ff.HeadErrReturns), leanStr(ff.HeadEmptyReturns), wkBool(ff.HeadPositive))
-	fmt.Fprintf(&b, "/-- `failed = sched.executeAndReschedule(ctx) != nil` is the only assignment to `failed` -/\ndef failedFromTick : Bool := %s\n", wkBool(ff.FailedFromTick))
+	fmt.Fprintf(&b, "/-- the timer case sets the back-off state (`retryAt = time.Now().Add(sched.opts.RetryInterval)` when\n    `executeAndReschedule` returns an error); it is the only assignment to that zero-initialised variable -/\ndef stateFromTick : Bool := %s\n", wkBool(ff.StateFromTick))
 	fmt.Fprintf(&b, "/-- every `return` of `executeAndReschedule` returns the error of `fetchAndReschedule` -/\ndef execReturnsFetchErr : Bool := %s\n", wkBool(ff.ExecReturnsFetchErr))
 	fmt.Fprintf(&b, "/-- `fetchAndReschedule` -/\ndef popErrReturned : Bool := %s\ndef popEmptyNil : Bool := %s\ndef pushErrReturned : Bool := %s\n", wkBool(ff.PopErrReturned), wkBool(ff.PopEmptyNil), wkBool(ff.PushErrReturned))
 	fmt.Fprintf(&b, "/-- every dispatch in `executeAndReschedule` is inside `if valid { … }`, `valid` coming from `validateJob` of the popped job -/\ndef dispatchOnlyIfValid : Bool := %s\n", wkBool(ff.DispatchOnlyIfValid))
